@@ -517,6 +517,32 @@ func wmGen(r *rand.Rand, n, length int) []Case {
 			mp = func(t uint64) uint64 { return t * (1 << 59) }
 			tags["indices-on-both-sides-of-2^63"] = true
 		}
+		if c%7 == 3 {
+			// a wide window: more than a hundred distinct indices in flight, finished out of order while a few small
+			// stragglers stay open; when the stragglers finish, the mark has to catch up over all of them at once
+			nw := 101 + r.Intn(230)
+			strag := 1 + r.Intn(3)
+			for t := 1; t <= nw; t++ {
+				ops = append(ops, fmt.Sprintf("b %d", mp(uint64(t))))
+			}
+			order := r.Perm(nw - strag)
+			if r.Intn(2) == 0 {
+				for i := range order {
+					order[i] = nw - strag - 1 - i
+				}
+			}
+			for _, o := range order {
+				ops = append(ops, fmt.Sprintf("d %d", mp(uint64(strag+1+o))))
+			}
+			nwait++
+			ops = append(ops, fmt.Sprintf("wait %d %d", nwait, mp(uint64(nw))))
+			for t := strag; t >= 1; t-- {
+				ops = append(ops, fmt.Sprintf("d %d", mp(uint64(t))))
+			}
+			ops = append(ops, fmt.Sprintf("chk %d", nwait), fmt.Sprintf("waitctx %d", mp(uint64(nw))))
+			tags["more-than-100-indices-in-flight"] = true
+			cur = uint64(nw)
+		}
 		for i := 0; i < length; i++ {
 			ts := uint64(r.Intn(nts))
 			if r.Intn(4) == 0 {
